@@ -7,6 +7,7 @@ Inductive mode := Emit | Check.
 (* panic sites *)
 Definition PUnwrapRecovery : nat := 1.   (* recovery.rs: take_alt().unwrap() *)
 Definition PUnwrapMapErr : nat := 2.     (* combinator.rs MapErrWithState: take_alt().unwrap() *)
+Definition PUnwrapInputRef : nat := 4.   (* input.rs InputRef::parse / InputRef::check: take_alt().unwrap() *)
 Definition PProgress : nat := 3.         (* debug_assert!(before != cursor) in loops *)
 
 Inductive outcome := Ok (v : option val) | Err | Panic (site : nat) | OutOfFuel.
@@ -896,6 +897,17 @@ Fixpoint go (n : nat) (m : mode) (g : G) (ctx : env) (s : st) {struct n} : outco
       end
   | Pratt atom ops => pratt_go run n' m atom ops ctx 0 s
   | GroupArr gs => group_loop run m gs ctx [] s
+  | ExtWrap a =>
+      (* extension.rs Ext::go: M::choose(parse, check) = InputRef::parse / InputRef::check of the wrapped parser in the
+         current mode; on failure the whole pending error is TAKEN and re-recorded at the position before the Ext *)
+      match run m a ctx s with
+      | (Err, s1) =>
+          match alt s1 with
+          | None => (Panic PUnwrapInputRef, s1)
+          | Some (_, e) => (Err, alt_err (set_alt s1 None) (cur s) e)
+          end
+      | res => res
+      end
   | NestedIn a =>
       match nested Q with
       | None => (Panic 97, s)
